@@ -119,6 +119,31 @@ func Check_Codec() {
 	sx.Observe("buf", int(k), n, buf)
 }
 
+// Check_IncrementalRecord: a data record filled element by element through
+// the Record API with its buffer read in between: after every addition the
+// buffer is exactly the reported length and the reference encoding of all
+// elements added so far.
+func Check_IncrementalRecord() {
+	n := sx.Range("elements", 1, 3)
+	rec := entities.NewDataRecord(tplID, 0, sx.Range("spare", 0, 2), false)
+	var want []byte
+	for i := 0; i < n; i++ {
+		pool := []common.Kind{common.KU8, common.KU32, common.KString, common.KMac, common.KOctetVar}
+		k := pool[sx.Choose("kind", len(pool))]
+		v := common.Draw(k, "value", common.PickLen(k, "len"))
+		sx.Assert(rec.AddInfoElement(common.Element(v)) == nil, "add")
+		want = append(want, v.Enc...)
+		if sx.Choose("readBuffer", 2) == 1 || i == n-1 {
+			buf := rec.GetBuffer()
+			sx.Assert(rec.GetRecordLength() == len(want), "record-length-is-sum-of-element-lengths")
+			sx.Assert(len(buf) == rec.GetRecordLength(), "buffer-length-is-record-length")
+			sx.Assert(sx.EqBytes(buf, want), "bytes-equal-reference-encoding")
+		}
+	}
+	sx.Assert(int(rec.GetFieldCount()) == n, "field-count")
+	sx.Reach("incremental")
+}
+
 // Check_TemplateValue: building the empty-valued element used in templates
 // must work for every supported type (decode with a nil value).
 func Check_TemplateValue() {
